@@ -73,3 +73,10 @@ def repo_test_instance():
     I = gen.from_input(inp, "repo_test_instance")
     caps = walks.observed_caps([I])
     return I, walks.walk_view(I, caps)
+
+
+def repo_test_digest():
+    """Fingerprint of the network that solution/resources/test_instance.json loads to (hook H3b records the
+    fingerprint of the network of every call: tests that build another instance are not judged against this one)."""
+    I, _ = repo_test_instance()
+    return walks.DIGESTS.get(I["name"], "")
